@@ -226,42 +226,12 @@ theorem othersGo_refines (pos : IPt) (i : Nat) (subs : List Sub) (j : Nat) (n : 
       have hg : GoodSub pos s := by
         have := h 0 (by simp) (by omega)
         simpa using this
-      simp only [hb, Bool.false_eq_true, if_false, windingsSub_good pos s hg]
+      have hs1 : s.1 = true := hg.1
+      have hgood := windingsSub_good pos s hg
+      rw [hs1] at hgood
+      simp only [hb, Bool.false_eq_true, if_false, hs1, if_true, hgood]
       rw [ih (j + 1) _ hrest]
       omega
-
-/-! ### Crossings -/
-
-/-- generic hits only: every hit is one crossing -/
-theorem crossHalves_generic (zs : List Z) (h : Int) (b : Bool)
-    (hg : ∀ z ∈ zs, z.t0zero = false ∧ z.endpoint = false ∧ z.same = false) :
-    crossHalves zs h b = (h + 2 * zs.length, b) := by
-  induction zs generalizing h with
-  | nil => simp [crossHalves]
-  | cons z rest ih =>
-    have hz := hg z (by simp)
-    simp only [crossHalves, hz.1, hz.2.1, hz.2.2, Bool.false_eq_true, if_false, Bool.not_false, if_true]
-    rw [ih _ (fun z hz => hg z (by simp [hz]))]
-    simp only [List.length_cons]
-    congr 1; push_cast; omega
-
-/-- walk-paired clean lists: a vertex on the ray (its two end-point hits) counts as one crossing
-whether the path crosses or only touches there, an overlapping section as none -/
-def halves (z : Z) : Int := if z.same then (if z.endpoint then -1 else 0) else (if z.endpoint then 1 else 2)
-
-def H : List Z → Int
-  | [] => 0
-  | z :: rest => halves z + H rest
-
-theorem crossHalves_sum (zs : List Z) (h : Int) (b : Bool) (hc : ∀ z ∈ zs, z.t0zero = false) :
-    crossHalves zs h b = (h + H zs, b) := by
-  induction zs generalizing h with
-  | nil => simp [crossHalves, H]
-  | cons z rest ih =>
-    have hz := hc z (by simp)
-    simp only [crossHalves, hz, Bool.false_eq_true, if_false]
-    cases hs : z.same <;> cases he : z.endpoint <;>
-      simp [ih _ (fun z hz => hc z (by simp [hz])), H, halves, hs, he] <;> omega
 
 /-! ### the Lean verdict on reported winding numbers -/
 
